@@ -348,7 +348,7 @@ def evaluate(prop, cases):
     impl_out = [None] * len(cases)
     for flags, idxs in by_flags.items():
         outs = run_impl('props.' + prop.ID.lower(), [cases[i] for i in idxs],
-                        per_case_timeout=getattr(prop, 'CASE_TIMEOUT', 5.0), flags=flags)
+                        per_case_timeout=getattr(prop, 'CASE_TIMEOUT', 15.0), flags=flags)
         for i, o in zip(idxs, outs):
             impl_out[i] = o
     lines, owner = [], []
